@@ -28,7 +28,9 @@ func init() {
 		c13Nan(fs)
 		c13IncRule(fs)
 		c13Dup(fs)
+		c13Rmval(fs)
 		c13Magic(fs)
+		c13StatusMap(fs)
 	}})
 }
 
@@ -329,6 +331,151 @@ func c13Dup(fs *Facts) {
 		return
 	}
 	fs.Enum(name, "unknown", path+":"+itoa(f.Line(is)))
+}
+
+// removeValCompare: scalarBytes — the loop of applyRemoveVal skips every non-leaf element
+// (`if item.Kind != KindLeaf { continue }`) and compares leafBytes with op.Value;
+// canonical — it compares elementBytes(item, orig) with canonicalValue(op.Value), where
+// elementBytes serialises containers and canonicalValue is Parse + Serialize for map/array codes.
+func c13Rmval(fs *Facts) {
+	const name = "removeValCompare"
+	const path = c13Dir + "remove.go"
+	f, err := Load(path)
+	if err != nil {
+		fs.Err("%v", err)
+		fs.Enum(name, "unknown", path)
+		return
+	}
+	fd := f.Func("", "applyRemoveVal")
+	if fd == nil || fd.Body == nil {
+		fs.Enum(name, "unknown", path)
+		return
+	}
+	var loop *ast.RangeStmt
+	ast.Inspect(fd.Body, func(n ast.Node) bool {
+		if r, ok := n.(*ast.RangeStmt); ok && f.Str(r.X) == "cur.Target.ArrayItems" {
+			loop = r
+		}
+		return true
+	})
+	if loop == nil {
+		fs.Enum(name, "unknown", path+":"+itoa(f.Line(fd)))
+		return
+	}
+	body := strings.Join(strings.Fields(f.Str(loop.Body)), " ")
+	where := path + ":" + itoa(f.Line(loop))
+	skips := strings.Contains(body, "if item.Kind != KindLeaf { continue }")
+	rawCmp := strings.Contains(body, "bytes.Equal(raw, op.Value)") && strings.Contains(body, "raw := leafBytes(item, orig)")
+	canonCmp := strings.Contains(body, "elementBytes(item, orig)") && strings.Contains(body, "bytes.Equal(have, want)") &&
+		f.Contains(fd.Body, "want := canonicalValue(op.Value)")
+	eb, cv := f.Func("", "elementBytes"), f.Func("", "canonicalValue")
+	helpers := eb != nil && cv != nil && f.Contains(eb.Body, "item.Serialize(orig)") && f.Contains(eb.Body, "canonicalValue(") &&
+		f.Contains(cv.Body, "Parse(raw)") && f.Contains(cv.Body, "skel.Serialize(raw)") && f.Contains(cv.Body, "isMapCode(raw[0]) || isArrayCode(raw[0])")
+	switch {
+	case skips && rawCmp && !canonCmp:
+		fs.Enum(name, "scalarBytes", where)
+	case canonCmp && helpers && !skips:
+		fs.Enum(name, "canonical", where)
+	default:
+		fs.Enum(name, "unknown", where)
+	}
+}
+
+// stCond … stNonstr: the PatchFieldsStatus (its iota value) classifyPatchError returns for each
+// msgpackpatch sentinel; seedDefault: the single byte of emptyMapMsgpack.
+func c13StatusMap(fs *Facts) {
+	const path = "app/core/hydra/swamp/swamp_patch.go"
+	names := map[string]string{"ErrConditionNotMet": "stCond", "ErrTypeMismatch": "stType", "ErrPathInvalid": "stPath",
+		"ErrInvalidOp": "stOp", "ErrInvalidMsgpack": "stMsgpack", "ErrNonStringKey": "stNonstr"}
+	order := []string{"stCond", "stType", "stPath", "stOp", "stMsgpack", "stNonstr"}
+	unknown := func() {
+		for _, n := range order {
+			fs.OptNat(n, 0, false, path)
+		}
+		fs.OptNat("seedDefault", 0, false, path)
+	}
+	f, err := Load(path)
+	if err != nil {
+		fs.Err("%v", err)
+		unknown()
+		return
+	}
+	// iota values of the PatchFieldsStatus constants
+	codes := map[string]int{}
+	for _, d := range f.AST.Decls {
+		gd, ok := d.(*ast.GenDecl)
+		if !ok || gd.Tok != token.CONST {
+			continue
+		}
+		isStatus := false
+		for i, sp := range gd.Specs {
+			vs := sp.(*ast.ValueSpec)
+			if i == 0 && vs.Type != nil && f.Str(vs.Type) == "PatchFieldsStatus" && len(vs.Values) == 1 && f.Str(vs.Values[0]) == "iota" {
+				isStatus = true
+			}
+			if isStatus && len(vs.Names) == 1 && (i == 0 || (vs.Type == nil && len(vs.Values) == 0)) {
+				codes[vs.Names[0].Name] = i
+			}
+		}
+	}
+	fd := f.Func("", "classifyPatchError")
+	if fd == nil || fd.Body == nil || len(codes) == 0 {
+		unknown()
+		return
+	}
+	found := map[string]int{}
+	lines := map[string]int{}
+	seenDup := false
+	ast.Inspect(fd.Body, func(n ast.Node) bool {
+		cc, ok := n.(*ast.CaseClause)
+		if !ok || len(cc.Body) != 1 {
+			return true
+		}
+		ret, ok := cc.Body[0].(*ast.ReturnStmt)
+		if !ok || len(ret.Results) != 1 {
+			return true
+		}
+		code, ok := codes[f.Str(ret.Results[0])]
+		if !ok {
+			return true
+		}
+		for _, e := range cc.List {
+			txt := f.Str(e)
+			const pre = "errors.Is(err, msgpackpatch."
+			if strings.HasPrefix(txt, pre) && strings.HasSuffix(txt, ")") {
+				sentinel := txt[len(pre) : len(txt)-1]
+				if fact, ok := names[sentinel]; ok {
+					if _, dup := found[fact]; dup {
+						seenDup = true
+					}
+					found[fact] = code
+					lines[fact] = f.Line(cc)
+				}
+			}
+		}
+		return true
+	})
+	for _, fact := range order {
+		c, ok := found[fact]
+		fs.OptNat(fact, c, ok && !seenDup, path+":"+itoa(lines[fact]))
+	}
+	// emptyMapMsgpack = []byte{0x80}
+	seedOK, seed, line := false, 0, 0
+	ast.Inspect(f.AST, func(n ast.Node) bool {
+		vs, ok := n.(*ast.ValueSpec)
+		if !ok || len(vs.Names) != 1 || vs.Names[0].Name != "emptyMapMsgpack" || len(vs.Values) != 1 {
+			return true
+		}
+		if cl, ok := vs.Values[0].(*ast.CompositeLit); ok && f.Str(cl.Type) == "[]byte" && len(cl.Elts) == 1 {
+			if bl, ok := cl.Elts[0].(*ast.BasicLit); ok {
+				if v, err := strconv.ParseInt(bl.Value, 0, 64); err == nil && v >= 0 && v < 256 {
+					seedOK, seed, line = true, int(v), f.Line(vs)
+				}
+			}
+		}
+		return true
+	})
+	fs.OptNat("seedDefault", seed, seedOK, path+":"+itoa(line))
 }
 
 func c13Magic(fs *Facts) {
